@@ -172,7 +172,7 @@ def loop_iteration_must_pass(cfg, loop, is_target_node):
             off.append('the loop can be left by return before the call')
     # leaving the loop by break: reaching the false-successor of the header
     out = cfg.succ[h][1]
-    if out is not None and (out, 0) in seen:
+    if out is not None and out != cfg.exit and (out, 0) in seen:
         off.append('the loop can be left by break before the call')
     return off
 
